@@ -59,6 +59,10 @@ def parseCmd : List String → Option Cmd
   | ["simplify-parents", x] => do some (.simplifyParents (← x.toNat?))
   | ["ref-set", x] => do some (.refSet (← x.toNat?))
   | ["commit"] => some .commitWc
+  | ["new-ab", x, ys] => do some (.newAB (← x.toNat?) (← parseNatList ys))
+  | ["rebase-r-ab", z, x, ys] => do some (.rebaseRAB (← z.toNat?) (← x.toNat?) (← parseNatList ys))
+  | ["duplicate-ab", z, x, ys] => do some (.duplicateAB (← z.toNat?) (← x.toNat?) (← parseNatList ys))
+  | ["revert-ab", z, x, ys] => do some (.revertAB (← z.toNat?) (← x.toNat?) (← parseNatList ys))
   | _ => none
 
 def showImm (g : Graph) (heads : List Nat) : String :=
